@@ -19,7 +19,11 @@ def run_module(modname, only=None, timeout_ms=None, verbose=True):
         if only and not any(o in c.name for o in only):
             continue
         t0 = time.time()
-        rep = verify_function(model, c, timeout_ms)
+        k = getattr(c, "split_bits", 0)
+        if k and __import__("os").environ.get("PYVC_PAR", "1") == "1":
+            rep = par_verify(modname, c, k, timeout_ms)
+        else:
+            rep = verify_function(model, c, timeout_ms)
         reports.append(rep)
         if verbose:
             nob = len(rep.obligations)
@@ -32,6 +36,35 @@ def run_module(modname, only=None, timeout_ms=None, verbose=True):
                 print("      model:", json.dumps(m)[:600])
             sys.stdout.flush()
     return model, reports
+
+
+def _slice(a):
+    modname, cname, timeout_ms, bits = a
+    import importlib
+    from .prove import verify_function
+    model = importlib.import_module(modname).build()
+    c = [x for x in list(model.contracts.values()) + list(model.func_contracts.values()) if x.name == cname][0]
+    r = verify_function(model, c, timeout_ms, forced=bits)
+    r.contract = None
+    return r
+
+
+def par_verify(modname, c, k, timeout_ms):
+    import itertools
+    import multiprocessing as mp
+    tasks = [(modname, c.name, timeout_ms, tuple(b)) for b in itertools.product((True, False), repeat=k)]
+    with mp.Pool(16) as pool:
+        reps = pool.map(_slice, tasks, chunksize=1)
+    m = reps[0]
+    rank = {"error": 4, "failed": 3, "undecided": 2, "proved": 1}
+    for r in reps[1:]:
+        m.paths += r.paths
+        m.obligations += r.obligations
+        m.models += r.models
+        m.seconds = max(m.seconds, r.seconds)
+        if rank.get(r.status, 0) > rank.get(m.status, 0):
+            m.status, m.reason = r.status, r.reason
+    return m
 
 
 if __name__ == "__main__":
